@@ -262,6 +262,12 @@ func (st *fnState) ownOf(v ssa.Value) origSet {
 	return res
 }
 
+// isSyncFieldLoad: the load reads a mutex / atomic held in a struct (not state of the program's own).
+func isSyncFieldLoad(x *ssa.UnOp) bool {
+	ts := types.TypeString(x.Type(), nil)
+	return strings.HasPrefix(ts, "sync.") || strings.HasPrefix(ts, "sync/atomic.")
+}
+
 func (st *fnState) addContents(site ssa.Instruction, os origSet) {
 	if st.contents[site] == nil {
 		st.contents[site] = origSet{}
@@ -394,7 +400,30 @@ func (st *fnState) mapOrigin(o origin, args []ssa.Value, site ssa.CallInstructio
 		res.add(o)
 	case oParam:
 		if o.idx >= 0 && o.idx < len(args) {
-			res.addAll(st.ownOf(args[o.idx]))
+			own := st.ownOf(args[o.idx])
+			res.addAll(own)
+			// "memory reachable from the parameter": for an object allocated here that is also what it holds — a
+			// fresh parser whose table field was given a package-level map writes that map when it registers
+			// (only what the fresh object holds directly, and only package-level maps and slices: updating such a
+			// container through the object is a write to the variable; objects merely pointed to from deeper inside —
+			// the singletons stored in an environment a closure captured — are not what the callee's write reaches)
+			for fo := range own {
+				if fo.kind == oFresh && fo.site != nil {
+					for co := range st.contents[fo.site] {
+						if co.kind != oGlobal || co.g == nil {
+							continue
+						}
+						gt := co.g.Type()
+						if pt, isP := gt.Underlying().(*types.Pointer); isP {
+							gt = pt.Elem()
+						}
+						switch gt.Underlying().(type) {
+						case *types.Map, *types.Slice:
+							res.add(co)
+						}
+					}
+				}
+			}
 		}
 	case oFree:
 		// free variables of a closure called here: bindings of the closure value
@@ -546,6 +575,24 @@ func (ea *effectAnalysis) analyse(fn *ssa.Function) bool {
 				if x.Op == token.MUL {
 					if g, ok := x.X.(*ssa.Global); ok {
 						sum.globReads[g] = true
+					}
+					// a field or an element of a package-level struct / array value (`cache.env`, `table[i]`)
+					addr := x.X
+					for d := 0; d < 4; d++ {
+						switch a := addr.(type) {
+						case *ssa.FieldAddr:
+							addr = a.X
+							continue
+						case *ssa.IndexAddr:
+							addr = a.X
+							continue
+						}
+						break
+					}
+					if g, ok := addr.(*ssa.Global); ok && addr != x.X {
+						if !isSyncFieldLoad(x) {
+							sum.globReads[g] = true
+						}
 					}
 				}
 			case ssa.CallInstruction:
